@@ -14,6 +14,7 @@ RULES = {
     "R-01.2": "_validate_labels raises LabelTooLong exactly for len(label) >= 64 and NameTooLong exactly for sum(len+1) >= 256",
     "R-01.3": "wire decoding: every seek target is strictly below every earlier pointer and the name's start; literal labels are < 64 octets; other label types raise; the loop consumes input on every iteration",
     "R-01.4": "compression table: offsets stored are <= 0x3FFF and taken before the label is written, keyed by the same suffix that is looked up; the root is never inserted; pointers are 0xC000 + stored offset",
+    "R-01.8": "relativization and derelativization against an origin keep every other label: Name.relativize strips exactly len(origin) labels (C06 R-06.4 relativize/choose and R-06.6 negative-zero slices adopted) - the text round trip under an origin rests on it",
     "R-01.7": "text emission and parsing decide relativity on the right object: Name.to_styled_text reads only the name produced by choose_relativity (never `self` again), and from_text / from_unicode decide whether to append the origin from the parsed labels (a trailing empty label), not from the raw text",
     "R-01.5": "every octet some reader gives meaning to is escaped by the writer (reader-special is a subset of writer-escaped); \\DDD is written and read with exactly 3 digits",
     "R-01.6": "a \\DDD escape above 255 is rejected with BadEscape",
@@ -289,6 +290,7 @@ def run(model, rep, tier):
         rep.check(okk, "R-01.7", qn, where(f7, ext[0]), f"the origin is appended iff the parsed `{lab}` do not end in the empty (root) label and an origin was given",
                   f"the decision to append the origin is `{src(ext[0].test)[:70]}`: it must depend on the parsed labels only (an escaped final dot `\\.` in the text is not the root label)", stmt="origin-append")
     rep.assume("IDNA codecs (idna package / encodings.idna) are outside the analysed program")
+    rep.share(model, "C06", {"R-06.4", "R-06.6"}, "R-01.8", "to_text(origin=..., relativize=True) and Tokenizer.get_name relativize through Name.relativize / choose_relativity", only=lambda o: o.rule == "R-06.6" or o.stmt in ("relativize", "choose"))
     rep.meta["explanation"] = (
         "Must-pass-through and who-may-write rules for the validation gate, normalised-bound rules for the 63/255 limits and the compression offset, a well-founded-measure argument for "
         "wire decoding (pointer strictly decreasing, loop consumes), and set comparison between the octets readers treat specially and the octets the writer escapes (both folded from the source). "
